@@ -154,7 +154,14 @@ Report == i <= Len(Cases) =>
           IF vp.ok THEN
                LET d == Differ(c) IN
                IF d = "" THEN TRUE
-               ELSE Line(c, "pys", <<"unexplained">>, [kind |-> "program", why |-> d, at |-> 0, nm |-> FALSE], FALSE)
+               ELSE \* the unflagged machine accepts both recordings although they differ: an object whose content it does
+                    \* not compute (Opq) is a wildcard.  The difference counts as explained by a flag set under which the
+                    \* machine tells the two apart - it still produces pyscript's recording and no longer CPython's.
+                    LET A  == Applicable(c)
+                        ex == {fs \in SUBSET A : Cardinality(fs) \in 1..2 /\ Accept(c, c.pys, fs).ok /\ ~Accept(c, c.cpy, fs).ok}
+                        e1 == {fs \in ex : Cardinality(fs) = 1}
+                    IN Line(c, "pys", IF ex = {} THEN <<"unexplained">> ELSE SetToSeq(CHOOSE fs \in (IF e1 # {} THEN e1 ELSE ex) : TRUE),
+                            [kind |-> "program", why |-> d, at |-> 0, nm |-> FALSE], FALSE)
           ELSE LET fs == Explain(c, Applicable(c), vp.at) IN
                Line(c, "pys", IF fs = {} THEN <<"unexplained">> ELSE SetToSeq(fs), vp, fs # {} /\ ~Accept(c, c.pys, fs).ok)
 =============================================================================
